@@ -7,7 +7,7 @@ CHECKS = {
  "C01": dict(
   category="exploration", design_ref="DESIGN.md §4 C01",
   technique="runtime monitoring: token-stream monitor (T1-T5) wrapped around the real lexer/parser in crash-isolated workers, mutation-driven hostile inputs",
-  text="Every generated input (seeds, ~10 mutators, hostile corpus, depth bombs) is lexed and parsed through all three parser entry points by the real code inside supervised worker processes; online assertions check token type/position/progress, an EOF-pull budget turns livelocks into logical verdicts, recovered panics and dead/hung workers are attributed to the input. Held on the executions observed only.",
+  text="Every generated input (seeds, ~10 mutators, hostile corpus, depth bombs) is lexed and parsed through all three parser entry points by the real code inside supervised worker processes; online assertions check token type/position/progress, an EOF-pull budget turns livelocks into logical verdicts, recovered panics and dead/hung workers are attributed to the input. Held on the executions observed only. A tree without an error for input whose braces or parentheses do not pair up is a violation (law A6, pragma/control lines exempt); 770 numeric literal forms must each be one INT/FLOAT/RTIME token.",
   note="Trusts the harness position mapper (rune columns, LF lines) and the bounded-progress restatement of termination (<=64 consecutive EOF pulls, watchdog with isolated re-run)."),
  "C19": dict(
   category="exploration", design_ref="DESIGN.md §4 C19",
@@ -17,12 +17,12 @@ CHECKS = {
  "C16": dict(
   category="fault_enumeration", design_ref="DESIGN.md §4 C16",
   technique="runtime monitoring with syscall-level fault injection: strace -e inject (errno and SIGKILL at every recorded syscall touching the target), RLIMIT_FSIZE, size-limited tmpfs; byte-compare oracle against `falco fmt FILE`",
-  text="The real `falco fmt -w` binary (rebuilt from the tree) runs as an unprivileged user on 13 (quick) / ~37 (thorough) input classes; a fault-free strace trace enumerates every (syscall, occurrence) that touches the file, its descriptors or its directory, and each point is re-run with injected error codes and with SIGKILL at syscall entry, plus file-size limits and a full tmpfs. After every run the file must be its original bytes or exactly the `falco fmt` output, and the original bytes whenever the command reported failure. Exhaustive over the recorded points only.",
+  text="The real `falco fmt -w` binary (rebuilt from the tree) runs as an unprivileged user on 13 (quick) / ~37 (thorough) input classes; a fault-free strace trace enumerates every (syscall, occurrence) that touches the file, its descriptors or its directory, and each point is re-run with injected error codes and with SIGKILL at syscall entry, plus file-size limits and a full tmpfs. After every run the file must be its original bytes or exactly the `falco fmt` output, and the original bytes whenever the command reported failure. Exhaustive over the recorded points only. Fault-free families: `fmt -w F1 F2 F3` for all 216 ordered triples of six file kinds (each file held to its own original / `falco fmt Fi` output, refused files byte-identical, exit status non-zero exactly when a file is refused) and thirteen content classes (CRLF, CR, no final newline, BOM, invalid UTF-8, 70 kB line, 2 MB, 4 MB) compared byte for byte with `falco fmt FILE`.",
   note="Trusts strace's injection (each faulted run is counted only if its own trace shows the fault on the intended syscall), the reference `falco fmt FILE` output of the same binary, and that durability after power loss is out of scope."),
  "C17": dict(
   category="exploration", design_ref="DESIGN.md §4 C17",
   technique="runtime monitoring: debugger snapshot monitor (interpreter.Debugger hook) reading every header spelling and sub-field before each statement + offline store-law checker over the recorded snapshots",
-  text="Operation sequences (set, +=, add, unset, name:key set/unset, wildcard unset) over mixed-case names, sub-field keys and hostile values are executed as VCL by the real interpreter in all 17 (object, scope) pairs where the object is writable; snapshots taken through the interpreter's own read path before every statement are checked against read-after-write, not-set-after-unset, case-insensitivity (value and set/not-set flag), sub-field read-back and the frame rule for sibling sub-fields, other headers and the other object. All sequences of length <=3 over a reduced 44-operation alphabet are enumerated for req/RECV (length <=2 elsewhere); longer ones are PRNG.",
+  text="Operation sequences (set, +=, add, unset, name:key set/unset, wildcard unset) over mixed-case names, sub-field keys and hostile values are executed as VCL by the real interpreter in all 17 (object, scope) pairs where the object is writable; snapshots taken through the interpreter's own read path before every statement are checked against read-after-write, not-set-after-unset, case-insensitivity (value and set/not-set flag), sub-field read-back and the frame rule for sibling sub-fields, other headers and the other object. All sequences of length <=3 over a reduced 44-operation alphabet are enumerated for req/RECV (length <=2 elsewhere); longer ones are PRNG. Also: a case-variant sub-field key, whole-header values that are field lists with blanks around the separators, `add` never replaces what a set header reads, wildcard unset leaves every header with the prefix (any spelling) not set.",
   note="Trusts the sim package (drives the interpreter as `falco test` does) and the law set as stated in the property; add/+=/wildcard are held only to the weak laws the property states."),
  "C20": dict(
   category="exploration", design_ref="DESIGN.md §4 C20",
@@ -67,17 +67,17 @@ CHECKS = {
  "C11": dict(
   category="exploration", design_ref="DESIGN.md §4 C11",
   technique="runtime monitoring: crash/budget watchdogs around the real linter (counting resolver for include expansion), repeat monitor (8 fresh lint runs per input, multiset equality) and permutation monitor (subroutine declarations permuted, diagnostics mapped to (declaration, statement ordinal))",
-  text="Generated programs (type-blind, hence ill-typed as often as not), hand-written recursion/duplicate/goto/functional programs, every example file and all include digraphs over up to three modules (top-level and in-subroutine includes) are linted by the real linter in supervised workers: no panic, no stack overflow, no more than 10000 module loads; eight repeated runs must give equal diagnostic multisets; permuting the subroutine declarations must leave the diagnostics unchanged apart from locations.",
+  text="Generated programs (type-blind, hence ill-typed as often as not), hand-written recursion/duplicate/goto/functional programs, every example file and all include digraphs over up to three modules (top-level and in-subroutine includes) are linted by the real linter in supervised workers: no panic, no stack overflow, no more than 10000 module loads; eight repeated runs must give equal diagnostic multisets; permuting the subroutine declarations must leave the diagnostics unchanged apart from locations. Fastly managed snippets in the linter context (scoped snippets whose order matters under four priority sets and all insertion orders, `snippet::` includes that are missing, self-including and mutually including, 24 runs each); the call-graph programs declare Fastly and user subroutines twice.",
   note="Map-iteration nondeterminism is only sampled (8 repetitions per input, thousands of inputs); the location mapping relies on the renderer's token positions."),
  "C09": dict(
   category="exploration", design_ref="DESIGN.md §4 C09",
   technique="runtime monitoring, metamorphic pair monitor: every program P is linted and executed next to decorated variants D(P) that differ only in ordinary comments and whitespace; the oracle compares diagnostic multisets (locations mapped back to token offsets) and, in the simulator, the debugger-snapshot trace, the log lines, the returned state and the reported error",
-  text="Programs from the grammar-directed generator (type-blind, many diagnostics: lint half) and from the typed generator (executable: simulator half) are decorated: one comment of each style (#, //, /* */) in each gap between two tokens alone (small programs, exhaustive per program), random multi-gap decorations, and whitespace-only layouts (tight, tabs, CRLF, blank lines). Diagnostics apart from line/column, executed statements, variable values before every statement, logs, returned state and reported error must be identical.",
+  text="Programs from the grammar-directed generator (type-blind, many diagnostics: lint half) and from the typed generator (executable: simulator half) are decorated: one comment of each style (#, //, /* */) in each gap between two tokens alone (small programs, exhaustive per program), random multi-gap decorations, and whitespace-only layouts (tight, tabs, CRLF, blank lines). Diagnostics apart from line/column, executed statements, variable values before every statement, logs, returned state and reported error must be identical. A second hand-written family covers scope-annotation neighbourhoods (full VCL and statement-only snippet files), one comment at every gap of function-call statements with identifier arguments (served through ServeHTTP), comments / blank lines / missing final line break in included modules (simulator and linter) and twelve #FASTLY macro look-alikes with a scoped snippet in the context.",
   note="A variant that no longer parses is outside the property and only counted. The simulator half executes the core language only (set/unset/log/if/switch/call/return on locals and req.http.*), not the whole state machine; comment text is drawn from a pool that cannot be read as an annotation."),
  "C10": dict(
   category="exploration", design_ref="DESIGN.md §4 C10",
   technique="runtime monitoring of the real `falco test` binary (nothing of falco linked): generated test files whose verdicts are known by construction are run -json and plain, with and without --coverage, in several orders and one test at a time; monitors compare reported verdicts with constructed ones, exit status with verdicts, summary counts with result entries, and runs with each other",
-  text="Test files are generated from all 24 assert.* functions instantiated to hold and to fail (custom message, wrong argument types/counts, assertions as expressions), runtime errors, @skip/@tag/@suite/multi-@scope tests and side-effect/probe pairs over the testing.* state, against three fixed main VCLs. Every file is run by the built CLI: verdict and message class = constructed; exit status != 0 iff a test failed; passed+failed+skipped = result entries on the plain line and in the -json summary, assertion count = assertion calls executed; per-test (verdict, message, logs) identical across orders, subsets and with --coverage.",
+  text="Test files are generated from all 24 assert.* functions instantiated to hold and to fail (custom message, wrong argument types/counts, assertions as expressions), runtime errors, @skip/@tag/@suite/multi-@scope tests and side-effect/probe pairs over the testing.* state, against three fixed main VCLs. Every file is run by the built CLI: verdict and message class = constructed; exit status != 0 iff a test failed; passed+failed+skipped = result entries on the plain line and in the -json summary, assertion count = assertion calls executed; per-test (verdict, message, logs) identical across orders, subsets and with --coverage. Deterministic families: three test files in every arrangement of all-pass / has-fail / has-error / only-skip (exit status, per-file verdicts, totals, plain and -json); every assertion function with each optional argument and with a custom / empty message (the message never changes the verdict); every @tag list of 1-3 plain or inverse tags under six sets of -t options against the documented table.",
   note="Constructed verdicts trust the catalogue of ~65 call scenarios over the fixed main programs; @tag expectations come from the decision table in docs/testing.md. Differences between runs are reported only if they reproduce. Three genuine defects are pinned by falco's own tests and stay open (JSON summary.passes is assertion-level; --coverage evaluates if-expression conditions twice)."),
  "C07": dict(
   category="exploration", design_ref="DESIGN.md §4 C07",
@@ -87,17 +87,17 @@ CHECKS = {
  "C13": dict(
   category="exploration", design_ref="DESIGN.md §4 C13",
   technique="runtime monitoring, frame-rule checker over the debugger-snapshot event log: the whole variable pool is read before every executed statement and the set of entries that changed across a statement is compared with the write set the statement names (no reference semantics involved)",
-  text="Typed programs with unary minus and compound assignment on variables, values copied between variables and headers, and helper subroutines that mutate their by-value parameters, their own locals and run their own regex matches are executed; across set/unset/log/if/switch/call statements only the named target (plus re.group.* when a regex is evaluated, plus headers across a call) may change; caller locals and caller capture groups must survive a call; canaries (req.url, req.method, an untouched header) must never change.",
+  text="Typed programs with unary minus and compound assignment on variables, values copied between variables and headers, and helper subroutines that mutate their by-value parameters, their own locals and run their own regex matches are executed; across set/unset/log/if/switch/call statements only the named target (plus re.group.* when a regex is evaluated, plus headers across a call) may change; caller locals and caller capture groups must survive a call; canaries (req.url, req.method, an untouched header) must never change. A third workload serves histories of seven requests (miss, hits, pass, second URL) through ServeHTTP against a loopback origin: the cached object read in vcl_hit and the resp read at the start of vcl_deliver are the same on every request for a URL, bereq statements leave req alone, req statements do not reach the next request, a subroutine body runs once per request (also with a root module that declares the same Fastly subroutines).",
   note="Only the driven subroutine's frame is judged (callee-internal transitions are covered through what the caller observes). Reading the pool through ProcessExpression is assumed side-effect free."),
  "C04": dict(
   category="exploration", design_ref="DESIGN.md §4 C04",
   technique="runtime monitoring of the real `falco lint` binary: inputs whose verdict is known by construction (injected diagnostics of known rule and severity, syntax breakers, .falco.yml overrides, ignore comments, included modules, snippets) are run in all six {plain,-json} x {none,-v,-vv} flag combinations; monitors compare exit status with the constructed verdict, counts with the constructed multiset, and the six runs with each other",
-  text="A lint-clean skeleton is injected with k_E/k_W/k_I diagnostics from an empirically verified catalogue (22 ERROR, 7 WARNING, 2 INFO named rules, plus unnamed ones) in the main file, an included module, nested blocks and snippets with/without @scope; 15 token-level syntax breakers; severity overrides up/down/ignore/partial/invalid; ignore comments covering all or some errors. Exit status != 0 iff syntax error or >=1 effective ERROR; error/warning/info counts equal the construction and are identical across the six modes; -json stdout is exactly one JSON document.",
+  text="A lint-clean skeleton is injected with k_E/k_W/k_I diagnostics from an empirically verified catalogue (22 ERROR, 7 WARNING, 2 INFO named rules, plus unnamed ones) in the main file, an included module, nested blocks and snippets with/without @scope; 15 token-level syntax breakers; severity overrides up/down/ignore/partial/invalid; ignore comments covering all or some errors. Exit status != 0 iff syntax error or >=1 effective ERROR; error/warning/info counts equal the construction and are identical across the six modes; -json stdout is exactly one JSON document. Deterministic families: three included modules in all arrangements of fine / syntax error (also nested and as statement modules), and rule overrides combined with --generated (in front of and behind the file), -I and a parent-directory configuration file.",
   note="The construction is cross-checked against the in-process linter; a mismatch is inconclusive, not a violation. Under a syntax error only the exit status is judged (plain mode prints no counts)."),
  "C12": dict(
   category="exploration", design_ref="DESIGN.md §4 C12",
   technique="runtime monitoring, conservation checker over diagnostic multisets of the real linter: every program is linted plain and with ignore directives inserted; each diagnostic is mapped to (file, original line, rule, severity, masked message) and the decorated run must equal the plain run minus exactly the diagnostics located in the covered statements (of the listed rules)",
-  text="Line-based programs with >=4 independent diagnostics of >=3 rules (21 rule names plus rule-less diagnostics, calibrated in every run) at top level, nested in if/else/switch-case blocks, in later subroutines and in included modules; for every statement position all three directive forms x {no rules, listed, unlisted, unknown, two rules} x {#, //, /* */}, pairs of directives (nested, sequential, next-line over next-line, range in range), layouts (CRLF, blank lines, tabs, several leading comments). Nothing outside the covered set may disappear (leak), everything covered must disappear (under), nothing new may appear.",
+  text="Line-based programs with >=4 independent diagnostics of >=3 rules (21 rule names plus rule-less diagnostics, calibrated in every run) at top level, nested in if/else/switch-case blocks, in later subroutines and in included modules; for every statement position all three directive forms x {no rules, listed, unlisted, unknown, two rules} x {#, //, /* */}, pairs of directives (nested, sequential, next-line over next-line, range in range), layouts (CRLF, blank lines, tabs, several leading comments). Nothing outside the covered set may disappear (leak), everything covered must disappear (under), nothing new may appear. Two further families: `ranges` (properly nested and consecutive start/end pairs, bare and listed, up to four open at once, inside if blocks, around an include whose module has ranges of its own, statements spanning several lines, per-statement next-line / trailing directives with blank lines; judged by the stack of open pairs, tagged not-judged where that reading and the documentation's flat wording disagree) and `decls` (diagnostics of the declaration pass - duplicated definitions, invalid return / table types, unused declarations - under every directive form, purely differential).",
   note="Only balanced ranges within one block are generated (the property speaks of start...end pairs). A directive on an include statement is taken to cover the included statements. Statement extents come from the builder's own line bookkeeping."),
  "C08": dict(
   category="exploration", design_ref="DESIGN.md §4 C08",
